@@ -43,6 +43,24 @@ def text_probe(rep: Report, rng):
             rep.findings.append(Finding("non-ascii-text-accepted-as-cue", {"file": "utf-8 title"}))
         except A.BadTextFile:
             pass
+        # S147: a sheet of well over 4 KiB - a long REM header before FILE, many tracks - is read whole: every line of
+        # the file reaches the parser, and the meaning is the intended one
+        import fam_cue as FC2
+
+        body, _ = FC2.canonical(rng, 80, name="long sheet.bin")
+        long_lines = [f"REM line {k} of a long header {'x' * 40}\n" for k in range(120)] + body
+        with open(p, "w", encoding="ascii", newline="") as f:
+            f.write("".join(long_lines))
+        try:
+            got_lines = A.parse_text_file(p)
+            got = FC2.meaning_real(list(got_lines))
+        except Exception as e:  # noqa
+            got_lines, got = [], "raised " + type(e).__name__
+        want = FC2.intended(body)
+        rep.evaluations += 1
+        rep.feat("sheet_longer_than_4k")
+        if len(got_lines) != len(long_lines) or got != want:
+            rep.findings.append(Finding("long-cue-sheet-not-read-whole", {"bytes": sum(map(len, long_lines)), "lines_written": len(long_lines), "lines_read": len(got_lines), "got": str(got)[:300], "want": str(want)[:300]}))
     finally:
         shutil.rmtree(d, ignore_errors=True)
 
@@ -104,7 +122,7 @@ def run(ctx, rep: Report, deep: bool = False):
     text_probe(rep, rng)
     if ctx.model_available:
         compare_family(rep, "cue", cases, nontrivial=lambda c: "track" in c.impl)
-    rep.required_features = ["bin_name_with_blanks", "minutes_100_and_more", "variant_innerws", "variant_case", "variant_blanks", "variant_blankline", "variant_unknown", "variant_mixed", "malformed_sheets"]
+    rep.required_features = ["sheet_longer_than_4k", "bin_name_with_blanks", "minutes_100_and_more", "variant_innerws", "variant_case", "variant_blanks", "variant_blankline", "variant_unknown", "variant_mixed", "malformed_sheets"]
 
 
 def search(ctx, rep: Report):
